@@ -1,0 +1,35 @@
+// Copyright 2017 Pilosa Corp.
+//
+// Licensed under the Apache License, Version 2.0 (the "License");
+// you may not use this file except in compliance with the License.
+// You may obtain a copy of the License at
+//
+//     http://www.apache.org/licenses/LICENSE-2.0
+//
+// Unless required by applicable law or agreed to in writing, software
+// distributed under the License is distributed on an "AS IS" BASIS,
+// WITHOUT WARRANTIES OR CONDITIONS OF ANY KIND, either express or implied.
+// See the License for the specific language governing permissions and
+// limitations under the License.
+
+//go:build verif
+// +build verif
+
+package pilosa
+
+// Export shim for the verification harness (/verif, property C27). Add-only, tag-guarded.
+
+// VerifC27Broadcast frames m the way Server.SendSync does (MarshalInternalMessage: type byte from
+// getMessageType + serialized body) and decodes it the way the receiving node does (getMessage on
+// the type byte, Unmarshal of the body).
+func VerifC27Broadcast(m Message, s Serializer) (Message, error) {
+	buf, err := MarshalInternalMessage(m, s)
+	if err != nil {
+		return nil, err
+	}
+	out := getMessage(buf[0])
+	if err := s.Unmarshal(buf[1:], out); err != nil {
+		return nil, err
+	}
+	return out, nil
+}
